@@ -25,7 +25,8 @@ type c07byteShape struct {
 }
 
 var c07byteShapeNames = []string{"bytes:multiple-empty-sequence", "bytes:alternate-empty-set", "bytes:context2-short-rule-sets",
-	"bytes:filtering-set-oob", "bytes:context3-bad-indices", "bytes:chain3-deep-and-recursive", "bytes:context3-many-actions"}
+	"bytes:filtering-set-oob", "bytes:context3-bad-indices", "bytes:chain3-deep-and-recursive", "bytes:context3-many-actions",
+	"bytes:subtable-format-alias"}
 
 func c07buildBytes(r *rand.Rand, which int) *c07byteShape {
 	x, y, a, m := int(hX), int(hY), int(hA), int(hM)
@@ -68,6 +69,27 @@ func c07buildBytes(r *rand.Rand, which int) *c07byteShape {
 		lookups = append(lookups, ob.Lookup(6, 0, -1, ob.Chain3(nil, [][]int{{x}}, nil, []ob.SeqLookup{{SequenceIndex: 0, LookupListIndex: d + 1}, {SequenceIndex: 0, LookupListIndex: 0}})))
 		lookups = append(lookups, ob.Lookup(2, 0, -1, ob.Multiple([]int{x}, [][]int{{x, y}})))
 		sh.table = ob.Table(lookups...)
+	case "bytes:subtable-format-alias":
+		// (lookup type, subtable format) pairs outside the defined ones whose
+		// "10*type+format" coincides with a defined pair: format 11 in a type 6
+		// lookup (= 7.1, extension), format 11 in a type 1 lookup (= 2.1), type
+		// 6560 format 7 (= 7.1 modulo 2^16).  Whatever the reader makes of them
+		// must be safe to apply.
+		sh.expect = ""
+		ext := append([]byte{0, 11, 0, 1, 0, 0, 0, 8}, ob.Single2([]int{x, y}, []int{y, x})...)
+		switch r.IntN(4) {
+		case 0:
+			sh.table = ob.Table(ob.Lookup(6, 0, -1, ob.Chain3(nil, [][]int{{y}}, nil, []ob.SeqLookup{{SequenceIndex: 0, LookupListIndex: 1}}), ext), single)
+		case 1:
+			sh.table = ob.Table(ob.Lookup(6, 0, -1, ext), single)
+		case 2:
+			mult := ob.Multiple([]int{x, y}, [][]int{{y}, {x, x}})
+			mult[0], mult[1] = 0, 11
+			sh.table = ob.Table(ob.Lookup(1, 0, -1, mult))
+		default:
+			e7 := append([]byte{0, 7, 0, 7, 0, 0, 0, 8}, append([]byte{0, 1, 0, 1, 0, 0, 0, 8}, ob.Single2([]int{x, y}, []int{y, x})...)...)
+			sh.table = ob.Table(ob.Lookup(6560, 0, -1, e7))
+		}
 	case "bytes:context3-many-actions":
 		sh.expect = "actions-over-budget:gsub5.3"
 		var acts []ob.SeqLookup
@@ -95,6 +117,7 @@ func c07bytesStratum(c *mon.Ctx) {
 		}
 		if err != nil || info == nil || len(info.LookupList) == 0 {
 			k.Class("bytes-not-delivered:" + sh.name)
+			k.Class("bytes-not-delivered-or-applied:" + sh.name)
 			k.Skip(fmt.Sprintf("bytes-not-delivered:%v", err))
 			return
 		}
@@ -104,7 +127,7 @@ func c07bytesStratum(c *mon.Ctx) {
 			gd = nil
 		}
 		got := c07classify(info.LookupList, gd, false)
-		if !strings.Contains(","+strings.Join(got, ",")+",", ","+sh.expect+",") {
+		if sh.expect != "" && !strings.Contains(","+strings.Join(got, ",")+",", ","+sh.expect+",") {
 			k.Class("bytes-shape-not-found-after-read:" + sh.name)
 			k.Skip("bytes-shape-not-found-after-read")
 			return
@@ -138,6 +161,7 @@ func c07bytesStratum(c *mon.Ctx) {
 		c07run(k, st, t, lookups, seqs, r.IntN(2) == 0)
 		if st.applied > 0 {
 			k.Class("shape-applied:" + sh.name)
+			k.Class("bytes-not-delivered-or-applied:" + sh.name)
 		}
 		for _, s := range seqs {
 			k.Distinct(sh.table, s)
@@ -146,6 +170,12 @@ func c07bytesStratum(c *mon.Ctx) {
 		k.Sample(map[string]any{"shape": sh.name, "table-bytes": len(sh.table), "applied": st.applied})
 	})
 	for _, n := range c07byteShapeNames {
+		if n == "bytes:subtable-format-alias" {
+			// a reader that refuses these tables is right; the shape is only
+			// applied if the reader delivers something
+			c.Require("bytes-not-delivered-or-applied:" + n)
+			continue
+		}
 		c.Require("shape-applied:" + n)
 	}
 }
